@@ -22,7 +22,7 @@ def showEv : UEv → String
   | .hdr c => s!"hdr{c}"
   | .body n => s!"body{n}"
   | .flush => "flush"
-  | .hook h => s!"hook{h}"
+  | .hook h => s!"hook{h}:0"     -- a hook runs in the pre-state of the trigger, where `Status()` is still 0 (C13 `hooks_run_unwritten`)
 
 def showTrace (w : W) : String :=
   if w.under.isEmpty then "none" else joinWith "," (w.under.map showEv)
